@@ -58,9 +58,9 @@ def handle_bin_op(expr: ast.BinOp | astroid.BinOp, **kwargs) -> Token | None:
             for guess in guesses:
                 if type(guess) is not astroid.Const:
                     continue
-                return Token(value=ZeroDivisionError, col=expr.right.col_offset)
+                return Token(value=ZeroDivisionError, line=expr.right.lineno, col=expr.right.col_offset)
         if isinstance(expr.right, ast.Constant) and str(expr.right.value) == '0':
-            return Token(value=ZeroDivisionError, col=expr.right.col_offset)
+            return Token(value=ZeroDivisionError, line=expr.right.lineno, col=expr.right.col_offset)
     return None
 
 
